@@ -22,7 +22,7 @@ def operand_value(x, regs):
         return of_str(x[2], x[1])
     if k == "r":
         return regs[x[1]]
-    if k == "l":
+    if k in ("l", "t"):
         out = ()
         for y in x[1]:
             out += operand_value(y, regs)
